@@ -102,6 +102,22 @@ func C14(p *ir.Program, r *report.R) {
 			// final `return res, err` with err == nil on this path
 			r.Check("K8", name+"/error-class/final", p.InstrPos(rt.Instr), ir.HasFact(fs, "eq("+abs+",nil)"), "the success return carries the nil decode error")
 		default:
+			// the error of a same-package helper all of whose failures are DataCorruptionError
+			if callee := errorHelperOf(res); callee != nil && callee.Pkg == dec.Pkg {
+				all, n := true, 0
+				for _, hr := range ir.Returns(callee) {
+					a := ir.AbstractResult(hr.Results[len(hr.Results)-1])
+					if a == "nil" {
+						continue
+					}
+					n++
+					if !strings.HasPrefix(a, "nonnil:consensus.DataCorruptionError") {
+						all = false
+					}
+				}
+				r.Check("K8", name+"/error-class/corruption", p.InstrPos(rt.Instr), all && n > 0, "classified as DataCorruptionError by every failing return of helper "+callee.Name())
+				continue
+			}
 			r.Check("K8", name+"/error-class/unknown", p.InstrPos(rt.Instr), false, "unclassified error result: "+short(abs, 200))
 		}
 	}
@@ -340,3 +356,17 @@ func C14(p *ir.Program, r *report.R) {
 }
 
 var _ = report.Discharged
+
+// errorHelperOf: the statically resolved callee whose (last) result v is, looking through a
+// single-store local.
+func errorHelperOf(v ssa.Value) *ssa.Function {
+	switch x := v.(type) {
+	case *ssa.Call:
+		return x.Call.StaticCallee()
+	case *ssa.Extract:
+		if c, ok := x.Tuple.(*ssa.Call); ok {
+			return c.Call.StaticCallee()
+		}
+	}
+	return nil
+}
